@@ -108,6 +108,25 @@ Definition tokens_agreed (fchain : list (N * Z)) (aos : list sao) (k s : N) (byt
                                                              | Some t => EM.tok_eqb t (EM.mkTok true d)
                                                              | None => false end) aos)) O bytes
   end.
+(* (iii) as C07_used_needs_quorum_cycle states it, against the agreed commit data cd1 of the GetCommitReports round.
+   getMessagesOutcome APPENDS to report.MessageTokenData and the builder compares list lengths only, so when the agreed
+   commit data already carried token data (possible only for commit data f_dest+1 oracles made up: no honest oracle
+   observes commit data with token data) the token data used for a message is either an entry the agreed commit data
+   carried or the merged entry of SOME sequence number of the report's interval.  When the agreed commit data carried
+   none this is the exact test [tokens_agreed] (C07_token_data_cycle).  Before Proofs/JudgeSoundExecSysP.v decided the
+   question the exact test was applied unconditionally: the model's own output failed it on a cycle whose agreed
+   commit data carried token data (witness TokCase.tokens_agreed_before_false_alarm there). *)
+Definition tok_seqs_at (k : N) (aos : list sao) : list N :=
+  flat_map (fun a => EM.keys (EM.entries k (so_tokens (snd a)))) aos.
+Definition tokens_ok (fchain : list (N * Z)) (aos : list sao) (cd1 : cdata) (k s : N) (bytes : list N) : bool :=
+  tokens_agreed fchain aos k s bytes ||
+  match c_td cd1 with
+  | [] => false
+  | tds =>
+      existsb (fun td => td_ready td && list_eqb N.eqb (td_bytes td) bytes) tds ||
+      existsb (fun s' => PS.in_range (c_start cd1) (c_end cd1) s' && tokens_agreed fchain aos k s' bytes)
+              (tok_seqs_at k aos)
+  end.
 (* not flagged too costly by f_dest+1 *)
 Definition not_costly (fdest : Z) (aos : list sao) (mid : N) : bool :=
   negb (EM.gte_f_plus_one fdest (reporters (fun o => memN mid (so_costly o)) aos)).
@@ -147,7 +166,9 @@ Section SysProp.
       existsb (fun cd1 =>
         core_eqb cd1 cd2 && commit_agreed (s_dest g) (rc_fchain r1) (rc_aos r1) cd1 &&             (* wiring, (i) *)
         forallb (fun m => negb (memN (m_seq m) (c_exec cd1)) &&                         (* (c) *)
-                          PS.in_range (c_start cd1) (c_end cd1) (m_seq m)) (r_msgs r))  (* (i), interval *)
+                          PS.in_range (c_start cd1) (c_end cd1) (m_seq m)) (r_msgs r) &&  (* (i), interval *)
+        forallb (fun mt => tokens_ok (rc_fchain r2) (rc_aos r2) cd1 (r_src r) (m_seq (fst mt)) (snd mt))
+                (combine (r_msgs r) (r_td r)))                                          (* (iii) *)
         (o_pending (rc_out r1)) &&
       Nat.eqb (length (r_msgs r)) (length (r_td r)) &&
       forallb (fun mt =>
@@ -155,7 +176,6 @@ Section SysProp.
         N.eqb (m_src m) (r_src r) &&
         existsb (C8.msg_eqb m) (c_msgs cd2) &&
         msg_agreed (rc_fchain r2) (rc_aos r2) (r_src r) m &&                            (* (ii) *)
-        tokens_agreed (rc_fchain r2) (rc_aos r2) (r_src r) (m_seq m) (snd mt) &&        (* (iii) *)
         not_costly (fdest_of g (rc_fchain r2)) (rc_aos r2) (m_id m))
         (combine (r_msgs r) (r_td r)))
       (o_pending (rc_out r2)).
